@@ -118,6 +118,9 @@ func (u *ut0311) BroadcastTo(addr *net.UDPAddr, request []byte, callback func([]
 	if bind.Port != 0 {
 		guard.Lock()
 		defer guard.Unlock()
+
+		// ... the timeout runs from when the shared bind port has been acquired
+		deadline = time.Now().Add(u.timeout)
 	}
 
 	if connection, err := net.ListenUDP("udp", bind); err != nil {
@@ -181,6 +184,9 @@ func (u *ut0311) SendUDP(addr *net.UDPAddr, request []byte) ([]byte, error) {
 	if bind.Port != 0 {
 		guard.Lock()
 		defer guard.Unlock()
+
+		// ... the timeout runs from when the shared bind port has been acquired
+		deadline = time.Now().Add(u.timeout)
 	}
 
 	dialer := net.Dialer{
@@ -260,6 +266,9 @@ func (u *ut0311) SendTCP(addr *net.TCPAddr, request []byte) ([]byte, error) {
 	if bind.Port != 0 {
 		guard.Lock()
 		defer guard.Unlock()
+
+		// ... the timeout runs from when the shared bind port has been acquired
+		deadline = time.Now().Add(u.timeout)
 	}
 
 	dialer := net.Dialer{
